@@ -68,7 +68,7 @@ def check(rec, kind, idx, rng, tier):
                 img[int(rng.integers(0, H)), col] = 7; planted = True
     tvals = None
     if rng.random() < 0.25:
-        tvals = [float(v) for v in rng.choice([1, 2, 3, 4, 7], size=int(rng.integers(1, 3)), replace=False)]
+        tvals = [float(v) for v in rng.choice([0, 1, 2, 3, 4, 7], size=int(rng.integers(1, 3)), replace=False)]      # 0 is a legal explicit target
     fname = str(rng.choice(['proximity', 'allocation', 'direction']))
     f = getattr(xrspatial, fname)
     kw = dict(distance_metric=metric)
